@@ -92,7 +92,9 @@ theorem rxView_step_nonrx (e : Ep) (ev : Ev) (hne : ∀ c, ev ≠ .rx c) : (step
     simp only []
     split
     · rfl
-    · exact view_pump _ _
+    · split
+      · rfl
+      · exact view_pump { e with txIdle := false } n
   | rx c => exact absurd rfl (hne c)
   | rxEof =>
     simp only []
